@@ -395,9 +395,9 @@ def node_key(rk, i, memo=None):
     elif op == "send":
         k = ("send", node_key(rk, nd["data"], memo), nd["dst"], nd["tag"], node_key(rk, nd["pass"], memo))
     elif op in ("add", "sub", "mul"):
-        k = (op, node_key(rk, nd["a"], memo), node_key(rk, nd["b"], memo), st)
+        k = (op, node_key(rk, nd["a"], memo), node_key(rk, nd["b"], memo), i if st else False)
     else:
-        k = (op, node_key(rk, nd["a"], memo), nd["c"], st)
+        k = (op, node_key(rk, nd["a"], memo), nd["c"], i if st else False)
     memo[i] = k
     return k
 
@@ -657,6 +657,40 @@ def _make_variant(k):
     return _variant_class()(k)
 
 
+_NODEID = None
+
+
+def _nodeid_class():
+    """a pytools Tag naming the spec node a stored computing array was built from (lets the
+    harness map generated part-output names back to program nodes)"""
+    global _NODEID, CommNodeId
+    if _NODEID is None:
+        from pytools.tag import Tag
+
+        class CommNodeId(Tag):
+            def __init__(self, k):
+                self.k = k
+
+            def __eq__(self, o):
+                return type(o) is type(self) and o.k == self.k
+
+            def __hash__(self):
+                return hash(("CommNodeId", self.k))
+
+            def __repr__(self):
+                return f"CommNodeId({self.k})"
+
+            def __reduce__(self):
+                return (_make_nodeid, (self.k,))
+        CommNodeId.__qualname__ = "CommNodeId"
+        _NODEID = CommNodeId
+    return _NODEID
+
+
+def _make_nodeid(k):
+    return _nodeid_class()(k)
+
+
 def build(spec, rank):
     """the DictOfNamedArrays of `rank` (fresh pytato objects on every call)"""
     import pytato as pt
@@ -697,6 +731,8 @@ def build(spec, rank):
             raise ValueError(op)
         if nd.get("stored") and op not in ("alias",):
             v = v.tagged(ImplStored())
+            if op in ("add", "sub", "mul", "addc", "mulc"):
+                v = v.tagged(_nodeid_class()(len(vals)))
         vals.append(v)
     res = pt.make_dict_of_named_arrays({nm: vals[o] for nm, o in rk["outputs"]})
     # separately built equal sub-expressions must be one object for pytato's cached mappers
@@ -1086,3 +1122,51 @@ def datawrapper_family():
                "seed": 0, "index": idx, "profile": "datawrappers",
                "family": {"nranks": nranks, "wrappers_per_rank": nw, "names": scheme, "variant": variant}}
         idx += 1
+
+
+def samearray_family():
+    """Valid programs in which ONE array is sent several times from one part (to several ranks
+    and/or under several tags), interleaved with sends of other arrays, in every order of the
+    stapling chain — `name_to_send_nodes[name]` must list all its sends."""
+    import itertools
+    idx = 0
+    for nranks in (2, 3):
+        # payload pattern of the sends of rank 0: which array (A=0, B=1, C=2) each send carries
+        for pattern in ((0, 0), (0, 1, 0), (0, 0, 1), (1, 0, 0), (0, 1, 0, 1), (0, 1, 2, 0), (0, 1, 1, 0, 2)):
+            for order in itertools.islice(itertools.permutations(range(len(pattern))), 0, 6):
+                tags = []
+                ranks = [{"nodes": [{"op": "input", "name": "x"}], "outputs": []} for _ in range(nranks)]
+                n0 = ranks[0]["nodes"]
+                arrays = []
+                for a in range(3):
+                    n0.append({"op": "addc", "a": 0, "c": a + 1})
+                    arrays.append(len(n0) - 1)
+                prev = 0
+                sends = []
+                for k in order:
+                    dst = 1 + (k % (nranks - 1))
+                    tags.append(["i", 100 + len(tags)])
+                    t = len(tags) - 1
+                    n0.append({"op": "send", "data": arrays[pattern[k]], "dst": dst, "tag": t, "pass": prev})
+                    prev = len(n0) - 1
+                    sends.append((dst, t))
+                ranks[0]["outputs"] = [["aux", prev]]
+                for r in range(1, nranks):
+                    nodes = ranks[r]["nodes"]
+                    acc = 0
+                    for dst, t in sends:
+                        if dst == r:
+                            nodes.append({"op": "recv", "src": 0, "tag": t, "variant": 0})
+                            nodes.append({"op": "add", "a": acc, "b": len(nodes) - 1})
+                            acc = len(nodes) - 1
+                    ranks[r]["outputs"] = [["res", acc]]
+                yield {"nranks": nranks, "n": 2, "topology": "samearray", "tags": tags, "ranks": ranks,
+                       "seed": 0, "index": idx, "profile": "samearray",
+                       "family": {"nranks": nranks, "pattern": list(pattern), "order": list(order)}}
+                idx += 1
+
+
+def families():
+    """all hand-built families, as (profile, spec) — every spec carries its own 'profile'/'index'"""
+    for fam in (reuse_family, fanin_family, datawrapper_family, samearray_family):
+        yield from fam()
